@@ -55,6 +55,8 @@ loop:
 
 			if inFlag == nil {
 				LOG.Printf("flag %#v is unknown", arg)
+			} else if len(inFlag.Args) > 0 {
+				inFlag = nil // argument is attached (`--flag=arg`, `-farg`): the parser consumes no further words for it
 			}
 			continue
 
